@@ -121,6 +121,118 @@ def concretise_frac(inp, obs):
     return obs
 
 
+def reduce_sqrt(inp, obs, only=("dynamics",)):
+    """sym mode only; applied to the (large) obligations whose label starts with one of `only`
+    -- the small cap-tensor identities stay as they are and are decided by z3 with the axiom.  Values computed by FileProcessTensor.compute_caps contain the algebraic
+    symbol s = sqrt(p/q) of the 1/sqrt(d) trace vectors (always in pairs).  Rewrite every
+    term into the normal form A + B*s using ONLY the axiom s*s = p/q (exact, sound), so that
+    the solver is not asked to rediscover that through nlsat on a large polynomial."""
+    if inp.mode != "sym":
+        return obs
+    import z3
+    from fractions import Fraction
+    from vf import sym
+    if len(sym._SQ) != 1:
+        return obs
+    (q, sv), = sym._SQ.items()
+    qv = z3.RealVal(str(q))
+    sid = sv.get_id()
+    memo = {}
+    ZERO = None          # structural zero of the s-coefficient
+
+    def mul(a, b):
+        if a is ZERO or b is ZERO:
+            return ZERO
+        return a * b
+
+    def add(a, b):
+        if a is ZERO:
+            return b
+        if b is ZERO:
+            return a
+        return a + b
+
+    class Bail(Exception):
+        pass
+
+    def red(t):
+        """-> (A, B) with t == A + B*s; A a z3 term, B a z3 term or ZERO"""
+        i = t.get_id()
+        if i in memo:
+            return memo[i]
+        if i == sid:
+            r = (z3.RealVal(0), z3.RealVal(1))
+        elif t.num_args() == 0:
+            r = (t, ZERO)
+        else:
+            k = t.decl().kind()
+            ch = [red(c) for c in t.children()]
+            if all(b is ZERO for _, b in ch):
+                r = (t, ZERO)
+            elif k == z3.Z3_OP_ADD:
+                A, B = ch[0]
+                for a, b in ch[1:]:
+                    A, B = A + a, add(B, b)
+                r = (A, B)
+            elif k == z3.Z3_OP_SUB:
+                A, B = ch[0]
+                for a, b in ch[1:]:
+                    A = A - a
+                    B = add(B, ZERO if b is ZERO else -b)
+                r = (A, B)
+            elif k == z3.Z3_OP_UMINUS:
+                a, b = ch[0]
+                r = (-a, ZERO if b is ZERO else -b)
+            elif k == z3.Z3_OP_MUL:
+                A, B = ch[0]
+                for a, b in ch[1:]:
+                    nA = A * a
+                    bb = mul(B, b)
+                    if bb is not ZERO:
+                        nA = nA + bb * qv
+                    nB = add(mul(A, b), mul(B, a))
+                    A, B = nA, nB
+                r = (A, B)
+            elif k == z3.Z3_OP_DIV and ch[1][1] is ZERO:
+                a, b = ch[0]
+                r = (a / ch[1][0], ZERO if b is ZERO else b / ch[1][0])
+            else:
+                raise Bail()
+        memo[i] = r
+        return r
+
+    def term(x):
+        if isinstance(x, Fraction):
+            return x
+        A, B = red(x)
+        if B is ZERO:
+            return A
+        Bs = z3.simplify(B)
+        if z3.is_rational_value(Bs) and Bs.numerator_as_long() == 0:
+            return A
+        return A + B * sv
+
+    def conv(a):
+        if isinstance(a, sym.S):
+            return sym.S(term(a.re), term(a.im))
+        if isinstance(a, np.ndarray) and a.dtype == object:
+            out = np.empty(a.shape, dtype=object)
+            for idx in np.ndindex(*a.shape):
+                out[idx] = conv(a[idx])
+            return out
+        if isinstance(a, list):
+            return [conv(x) for x in a]
+        return a
+    try:
+        for o in obs:
+            if o.kind == "eq" and o.label.startswith(tuple(only)):
+                g, e = conv(o.got), conv(o.exp)
+                o.got, o.exp = g, e
+    except Bail:
+        pass
+    return obs
+
+
 def _import(fn, kind):
     """-> (object, list of warning messages)"""
     with warnings.catch_warnings(record=True) as w:
@@ -466,7 +578,7 @@ class H2(Case):
                 if not self.named_file and ws.exists(fn):
                     import os
                     (os.remove if ws.real else h5stub.OS.remove)(fn)
-        return concretise_frac(inp, obs)
+        return reduce_sqrt(inp, concretise_frac(inp, obs))
 
 
 def pt_tempo(infl, N, K, d, pt):
